@@ -47,9 +47,14 @@ FuncName(B, f) ==
     [] f = "Least" -> (IF B = "sqlite" THEN "MIN" ELSE "LEAST")
     [] f = "CharLength" -> (IF B = "sqlite" THEN "LENGTH" ELSE "CHAR_LENGTH")
     [] f = "Random" -> (IF B = "mysql" THEN "RAND" ELSE "RANDOM")
+    [] f = "PgToTsquery" -> "TO_TSQUERY" [] f = "PgToTsvector" -> "TO_TSVECTOR" [] f = "PgPhrasetoTsquery" -> "PHRASETO_TSQUERY"
+    [] f = "PgPlaintoTsquery" -> "PLAINTO_TSQUERY" [] f = "PgWebsearchToTsquery" -> "WEBSEARCH_TO_TSQUERY"
+    [] f = "PgTsRank" -> "TS_RANK" [] f = "PgStartsWith" -> "STARTS_WITH"
+    [] f = "PgTsRankCd" -> "TS_RANK_CD" [] f = "PgArrayAgg" -> "ARRAY_AGG" [] f = "PgJsonAgg" -> "JSON_AGG" [] f = "PgGenRandomUuid" -> "GEN_RANDOM_UUID"
     [] OTHER -> IF Len(f) > 5 /\ SubSeq(f, 1, 5) = "Cust:" THEN UpperStr(SubSeq(f, 6, Len(f))) ELSE "?" \o f
 
-Neg(e) == "neg" \in DOMAIN e /\ e.neg
+\* a condition may also say how many times not() is called on it ("nn"); negation is its parity
+Neg(e) == IF "nn" \in DOMAIN e THEN e.nn % 2 = 1 ELSE "neg" \in DOMAIN e /\ e.neg
 \* a column case expression is [k:"col", n: name or "*", q: optional qualifiers]
 CanonCol(e) ==
   LET q == IF "q" \in DOMAIN e THEN e.q ELSE <<>> IN
@@ -131,7 +136,7 @@ Supported(B, e) ==
     [] e.k = "like" -> Supported(B, e.e) /\ (("ci" \in DOMAIN e /\ e.ci) => B = "pg")
     [] e.k \in {"isnull", "cast", "insub", "asenum"} -> Supported(B, e.e)
     [] e.k = "in" -> Supported(B, e.e) /\ \A i \in DOMAIN e.vs : Supported(B, e.vs[i])
-    [] e.k = "fn" -> \A i \in DOMAIN e.args : Supported(B, e.args[i])
+    [] e.k = "fn" -> (\A i \in DOMAIN e.args : Supported(B, e.args[i])) /\ (Len(e.f) > 2 /\ SubSeq(e.f, 1, 2) = "Pg" => B = "pg")      \* PgFunc: PostgreSQL only
     [] e.k = "tuple" -> \A i \in DOMAIN e.es : Supported(B, e.es[i])
     [] e.k = "case" -> /\ \A i \in DOMAIN e.whens : Supported(B, e.whens[i].c) /\ Supported(B, e.whens[i].r)
                        /\ ("else" \in DOMAIN e => Supported(B, e.else))
